@@ -302,6 +302,10 @@ func main() {
 			}
 			rng.Shuffle(len(lst), func(i, j int) { lst[i], lst[j] = lst[j], lst[i] })
 			s1 := ociauth.NewScope(lst...)
+			// the caller goes on using its list: the scope is a value fixed at construction
+			for i := range lst {
+				lst[i] = RS{ResourceType: "scribbled", Resource: fmt.Sprint(i), Action: "over"}
+			}
 			scopes[mask] = s1
 			c.checkSingle(s1, "newscope", ms, probes, isMember)
 			txt := scopeText(rng, ms)
@@ -436,7 +440,11 @@ func main() {
 				lst = append(lst, r)
 			}
 		}
-		return rset{m, ociauth.NewScope(lst...)}
+		sc := ociauth.NewScope(lst...)
+		for i := range lst {
+			lst[i] = RS{ResourceType: "scribbled", Resource: fmt.Sprint(i), Action: "over"}
+		}
+		return rset{m, sc}
 	}
 	keys := func(m map[RS]struct{}) []RS {
 		var out []RS
